@@ -74,6 +74,9 @@ type scase struct {
 	Crash     *crashSpec `json:"crash,omitempty"`
 	// Rounds: a corpus case whose failure was schedule-dependent is replayed this many times (thorough: twice as often)
 	Rounds int `json:"rounds,omitempty"`
+	// FlushMs: the chunk writers' flush period (default 2 ms). With a long period a stop right after an acknowledgement
+	// comes before the timer, so only a shutdown that syncs the journals keeps the events (finding F42, repaired)
+	FlushMs int `json:"flush_ms,omitempty"`
 }
 
 // ---------------------------------------------------------------------------------------------
@@ -133,7 +136,11 @@ type sim struct {
 }
 
 func newSim(sec string, sect *vh.Section, in interface{}, chunkSize int) *sim {
-	s := &sim{sec: sec, sect: sect, in: in, dir: lrsrv.NewDir(), opts: lrsrv.Opts{MaxChunkSize: chunkSize},
+	flushMs := 0
+	if c, ok := in.(scase); ok {
+		flushMs = c.FlushMs
+	}
+	s := &sim{sec: sec, sect: sect, in: in, dir: lrsrv.NewDir(), opts: lrsrv.Opts{MaxChunkSize: chunkSize, WriteFlushMs: flushMs},
 		parts: map[string]*part{}, pipes: map[string]pipe.Pipe{}, deleted: map[string]bool{}, chunkDense: map[uint64]int{}, nextChunk: 1}
 	d, err := vh.Open(args.Driver)
 	if err != nil {
@@ -1638,6 +1645,13 @@ func genOps(rng *vh.Rng, nops int, withRestarts bool) []hop {
 
 func genGraceful(rng *vh.Rng) scase {
 	c := scase{ChunkSize: rng.PickI([]int{700, 1500, 4000, 20000}), Ops: genOps(rng, rng.Range(4, 14), true)}
+	if rng.Chance(1, 6) {
+		// slow flush timer: a stop right after an acknowledgement certainly precedes the periodic flush
+		c = scase{ChunkSize: c.ChunkSize, FlushMs: 120, Ops: []hop{{Kind: "write", Part: 0, N: rng.PickI([]int{3, 40})}, {Kind: "write", Part: 1, N: 2}}}
+		for i := rng.Range(1, 3); i > 0; i-- {
+			c.Ops = append(c.Ops, hop{Kind: "write", Part: rng.Intn(3), N: rng.PickI([]int{1, 2, 30})}, hop{Kind: "restart"})
+		}
+	}
 	c.Ops = append(c.Ops, hop{Kind: "restart", Quiesce: true})
 	return c
 }
